@@ -840,6 +840,11 @@ func apiStream(r *vh.Rng, n int, acases, rcases, scases map[string]int, sum *vh.
 			continue
 		}
 		canon0 := vh.CanonRV(dst)
+		if sh := shareCheck(dst); sh != "" {
+			c := copyCase(cj)
+			c["sharing"] = sh
+			sum.FailC("api", "share:"+format+":"+tr.class(), "two positions of one decoded value share mutable memory", c)
+		}
 		var w walker
 		rts, _ := do["RawToString"].(bool)
 		w.ifaceKeyIsBytes = format == "msgpack" && !rts
@@ -982,7 +987,8 @@ func main() {
 	sum := vh.NewSummary("unit: every (format, transport bytes/io x buffer 0,1,16,4096 x reader kind, ZeroCopy, driver operation, length 0/1/2/16/17/300) once; distinct by that tuple. " +
 		"api: random struct of typed and interface{} fields with strings, []byte, map keys, RawExt, Raw (5 formats x transports x ZeroCopy x InternString x decode options), leaves located by pointer range, then history oracle (decode on, reset onto other streams, reset, overwrite input); non-trivial = at least one non-empty leaf; distinct by (format, transport, ZeroCopy, InternString, set of flows, leaf count/4). " +
 		"enc: Canon snapshot before/after Encode; distinct by (format, scenario, options). " +
-		"split: maps decoded by the reflection kMap (string/interface{}/named keys, non-fast-path value types) from a buffered reader delivering the stream in 2 or 3 pieces: every one-split and (short encodings: every, else sampled) two-split schedule x ReaderBufferSize 1,2,7,16,64 x ZeroCopy, compared with the []byte decode and re-compared after the Decoder moved on; distinct by (format, shape, buffer size, ZeroCopy)")
+		"split: maps decoded by the reflection kMap (string/interface{}/named keys, non-fast-path value types) from a buffered reader delivering the stream in 2 or 3 pieces: every one-split and (short encodings: every, else sampled) two-split schedule x ReaderBufferSize 1,2,7,16,64 x ZeroCopy, compared with the []byte decode and re-compared after the Decoder moved on; distinct by (format, shape, buffer size, ZeroCopy). " +
+		"reset: container-valued maps / slices (fast-path and reflection map types, naked MapType/SliceType) decoded into a zero destination under all 8 MapValueReset x InterfaceReset x SliceElementReset vectors x 4 transports x ZeroCopy: equal to the default-options decode and no two positions sharing a map / overlapping slice memory / pointee; distinct by that tuple")
 	cv := vh.NewCases(*cases, "From Coq Require Import List NArith ZArith.\nFrom Verif Require Import C13.Model C13.Corr.\nImport ListNotations.", "case", "mismatches", 60)
 	id := 0
 	unitStream(*cases, cv, &id, sum)
@@ -1007,6 +1013,7 @@ func main() {
 	encStream(r.Fork(), *nEnc, sum)
 	if *nSplit > 0 {
 		splitStream(r.Fork(), *nSplit, sum)
+		resetStream(sum)
 	}
 	sum.Print()
 }
